@@ -231,6 +231,14 @@ func (x *Exec) oblige(st *State, fr *Frame, in ssa.Instruction, kind, goal, desc
 			name += "@" + site
 		}
 	}
+	if x.contract != nil && x.contract.Unreachable != nil && fr != nil && fr.fn == x.root {
+		suffix := name[strings.LastIndex(name, "/")+1:]
+		if reason, ok := x.contract.Unreachable[suffix]; ok {
+			x.note("ASSUMED unreachable (not proved) in " + x.rootKey + ": " + suffix + " — " + reason)
+			x.assume(st, goal)
+			return
+		}
+	}
 	x.emit(st, name, kind, site, pos, goal, descr)
 	x.assume(st, goal)
 }
